@@ -30,7 +30,9 @@ RULE = (
     '(utilities within a band of 1..30, availability patterns incl. a whole nest unavailable and a single available '
     'alternative; availability dictionaries in several object-sharing styles: a fresh expression per alternative, one '
     'Variable / compound object reused by members of a nest and across nests, one Numeric(1) object, plain int / bool, None; '
-    'utilities sharing or not their sub-expression objects) x up to 7 constants added to all utilities, a nested structure (partition of a subset, others alone), a '
+    'utilities sharing or not their sub-expression objects; utility dict, availability dict, nest member lists, allocation '
+    'dicts and the choice sets of the nest objects each in an independently shuffled insertion order; every alternative '
+    'unavailable on some row) x up to 7 constants added to all utilities, a nested structure (partition of a subset, others alone), a '
     'cross-nested structure (overlapping nests, allocation rows summing to one, optional explicit zeros), nest parameters '
     'and scale in [1,10] given as float / Numeric / fixed or free Beta, three hand-written MEV term sets, ordered '
     'logit/probit with 2-6 categories; plus a fixed list of directed configurations. A case is non-trivial when at least '
@@ -407,7 +409,7 @@ def _stress(rec, cfg, viol):
         try:
             for a in alts:
                 util = {x: ex.Variable(f'V{x}') + ex.Variable('C') for x in alts}
-                av = None if none else {x: ex.Variable(f'A{x}') for x in alts}
+                av = None if none else {x: ex.Variable(f'A{x}') for x in reversed(alts)}  # other insertion order than util
                 util2 = {x: ex.Variable(f'V{x}') + ex.Variable('C') for x in alts}
                 av2 = None if none else {x: ex.Variable(f'A{x}') for x in alts}
                 if m == 'logit':
@@ -441,7 +443,8 @@ def finalize(cov, tier):
               'feature_rows_whole_nest_unavailable', 'feature_nl_alone', 'feature_cnl_overlapping_alts',
               'feature_cnl_alpha_zero_listed', 'availability_none', 'stress_lines_logit', 'syntax_tuple',
               'feature_same_nest_members_share_availability_object', 'availability_objects_group_var',
-              'availability_objects_group_expr', 'availability_objects_one_object', 'utility_objects_shared'):
+              'availability_objects_group_expr', 'availability_objects_one_object', 'utility_objects_shared',
+              'feature_utility_and_availability_dicts_in_different_orders', 'feature_every_alternative_unavailable_on_some_row'):
         if cov.get(k, 0) == 0:
             out.append(f'monitor / workload feature never observed: {k}')
     return out
